@@ -182,6 +182,11 @@ impl StarkProof {
         z: BigUint,
         alpha: BigUint,
     ) -> anyhow::Result<stark_proof::PublicInput> {
+        // continuous_page_headers() unwraps the hex conversion of every value: validate them first.
+        for cell in &public_input.public_memory {
+            Felt::from_hex(&cell.value).map_err(|_| anyhow::anyhow!("Invalid memory value"))?;
+        }
+        anyhow::ensure!(!public_input.public_memory.is_empty(), "Invalid public memory");
         let continuous_page_headers =
             Self::continuous_page_headers(&public_input.public_memory, z, alpha);
         let main_page = Self::main_page(&public_input.public_memory)?;
